@@ -268,7 +268,7 @@ func checkC16(c *Ctx) {
 			okc := false
 			eachInstr(f, func(in ssa.Instruction) {
 				if st, ok := in.(*ssa.Store); ok {
-					if a, ok := st.Addr.(*ssa.Alloc); ok && a.Comment == name && pathOf(st.Val) == src {
+					if a, ok := st.Addr.(*ssa.Alloc); ok && pathOf(a) == name && pathOf(st.Val) == src {
 						okc = true
 					}
 				}
